@@ -107,6 +107,7 @@ let emit fmt = Printf.ksprintf (fun s -> output_string !out (Printf.sprintf "#%d
 let backend = ref M.Osmosis
 let store : M.store option ref = ref None
 let tstore : M.tstore option ref = ref None
+let ttx_snap : M.tstore option option ref = ref None
 let self_addr = ref (cstr "")
 let mstore : M.mstore option ref = ref None
 let msnap : M.mstore option ref = ref None
@@ -239,9 +240,12 @@ let run_line (line : string) =
   try (match toks with
   | [] -> ()
   | t :: _ when String.length t > 0 && t.[0] = '#' -> ()
-  | ["tx_begin"] -> tx_snap := Some !store
-  | ["tx_commit"] -> tx_snap := None
-  | ["tx_abort"] -> (match !tx_snap with Some s -> store := s; tx_snap := None | None -> ()); emit "tx_abort"
+  | ["tx_begin"] -> tx_snap := Some !store; ttx_snap := Some !tstore
+  | ["tx_commit"] -> tx_snap := None; ttx_snap := None
+  | ["tx_abort"] ->
+      (match !tx_snap with Some s -> store := s; tx_snap := None | None -> ());
+      (match !ttx_snap with Some s -> tstore := s; ttx_snap := None | None -> ());
+      emit "tx_abort"
   | "cfg" :: be :: self :: _ ->
       backend := (if be = "miniwasm" then M.Miniwasm else M.Osmosis);
       self_addr := p_str self
